@@ -1094,12 +1094,61 @@ func Check(r *ev.Run, replay string) {
 	sort.Strings(ck)
 	folded := 0
 	for _, key := range ck {
+		if len(perCtx[key])*2 >= len(have) {
+			wholesale[key] = true
+		}
+	}
+	// A link (spawn, go, callback, try, direct) through which nothing is mediated makes every composed context
+	// containing it fail: report the link once instead of each of those contexts.
+	linksOf := func(cx string) []string {
+		if !strings.HasPrefix(cx, "g:") {
+			return nil
+		}
+		return strings.Split(cx[strings.LastIndex(cx, ":")+1:], "+")
+	}
+	badLink := map[string]bool{}
+	if thorough {
+		for _, l := range gLinks {
+			tot, bad := 0, 0
+			for _, cx := range composedContexts() {
+				has := false
+				for _, x := range linksOf(cx) {
+					has = has || x == l
+				}
+				if !has {
+					continue
+				}
+				for _, sp := range supplies {
+					tot++
+					if wholesale[cx+"|"+sp] {
+						bad++
+					}
+				}
+			}
+			if tot > 0 && bad*10 >= tot*9 {
+				badLink[l] = true
+			}
+		}
+	}
+	linkReported := map[string]int{}
+	for _, key := range ck {
 		fns := perCtx[key]
-		if len(fns)*2 < len(have) {
+		if !wholesale[key] {
 			continue
 		}
-		wholesale[key] = true
 		parts := strings.Split(key, "|")
+		viaLink := ""
+		for _, l := range linksOf(parts[0]) {
+			if badLink[l] && (viaLink == "" || l < viaLink) {
+				viaLink = l
+			}
+		}
+		if viaLink != "" {
+			linkReported[viaLink]++
+			if linkReported[viaLink] > 1 {
+				continue
+			}
+		}
 		var fl []string
 		for fn := range fns {
 			fl = append(fl, fn)
@@ -1133,12 +1182,22 @@ func Check(r *ev.Run, replay string) {
 				f0 = f
 			}
 		}
+		if viaLink != "" {
+			r.Report("link-unmediated:"+viaLink,
+				fmt.Sprintf("at least 90%% of the composed contexts that reach the function through a %q link are not served by the recording OS; first: context %s, OS supplied by %s, %s: %s",
+					viaLink, parts[0], parts[1], cases[first].in.Fn, f0.What),
+				cases[first].in, f0.Observed, f0.Expected)
+			continue
+		}
 		r.Report("context-unmediated:"+parts[0]+":"+parts[1],
 			fmt.Sprintf("%d of %d functions are not served by the recording OS in context %s with the OS supplied by %s; e.g. %s: %s; consequences in the same context: %s",
 				len(fns), len(have), parts[0], parts[1], cases[first].in.Fn, f0.What, strings.Join(al, " ")),
 			cases[first].in, f0.Observed, f0.Expected)
 	}
 	r.Set("consequent_failures_folded", folded)
+	if len(linkReported) > 0 {
+		r.Set("contexts_folded_into_link_reports", linkReported)
+	}
 	type gkey struct{ kind, fn string }
 	groups := map[gkey][]fkey{}
 	for k := range fails {
@@ -1198,7 +1257,7 @@ func Check(r *ev.Run, replay string) {
 				for _, h := range hits {
 					nh++
 					idx, _ := strconv.Atoi(h[2])
-					var in any = "outside a case"
+					var in any = map[string]any{"part": "strace", "note": "outside a case"}
 					fn := "?"
 					if idx >= 0 && idx < len(cases) {
 						in = cases[idx].in
@@ -1345,6 +1404,19 @@ func replayOne(r *ev.Run, self string, cases []kase, path string) {
 	if raw["part"] == "static" {
 		fmt.Println("static finding: re-running the static scan")
 		staticScan(r)
+		r.Outcome("replay")
+		r.Outcome("replay2")
+		return
+	}
+	if raw["part"] == "sweep" {
+		fmt.Println("left-over finding: sweeping /, the temp dir and the cwd for marker-named entries")
+		sweepReal(r, true)
+		r.Outcome("replay")
+		r.Outcome("replay2")
+		return
+	}
+	if s, ok := raw["fn"].(string); !ok || s == "" {
+		fmt.Printf("this finding is not tied to one case (%v); re-run the check\n", raw)
 		r.Outcome("replay")
 		r.Outcome("replay2")
 		return
